@@ -1194,7 +1194,7 @@ package compose
 //@   ensures[always_error] result != nil
 
 //@ func (*runner).run
-//@   props C01 C06 C10
+//@   props C01 C05 C06 C10
 //@   paths 1
 //@   skip pre safe frame
 //@   uses getHitKey (*runner).resolveInterruptCompletedTasks (*runner).handleInterrupt (*runner).handleInterruptWithSubGraphAndRerunNodes newGraphRunError
@@ -1212,6 +1212,8 @@ package compose
 //@   at call tm.submit: assert[interrupt_before_honoured] @C06 (supersteps == 0 && fromCp) || noneBefore(r, nextTasks)
 //@   at call tm.submit: ghost supersteps++
 //@   at call 1 r.handleInterrupt: assert[initial_before_reported] @C06 forall(i int :: 0 <= i && i < len(nextTasks) && inList(nextTasks[i].nodeKey, r.interruptBeforeNodes) ==> inList(nextTasks[i].nodeKey, hit))
+//@   at call 2 r.handleInterrupt: assert[every_pending_task_saved] @C05 len(arg3) == len(nextTasks) + len(newNextTasks)
+//@   at call 1 r.handleInterrupt: assert[initial_tasks_saved] @C05 len(arg3) == len(nextTasks) && arr(arg3) == arr(nextTasks) && off(arg3) == off(nextTasks)
 //@   at call 2 r.handleInterrupt: assert[before_reported] @C06 forall(i int :: 0 <= i && i < len(nextTasks) && inList(nextTasks[i].nodeKey, r.interruptBeforeNodes) ==> inList(nextTasks[i].nodeKey, interruptBeforeNodes))
 //@   ghost hits2 []string = nil
 //@   after call 3 getHitKey: ghost hits2 = result
@@ -1652,3 +1654,18 @@ package compose
 //@   props C04
 //@   pure
 //@   ensures[derived] result != nil
+
+//@ func getSuccessors
+//@   props C02
+//@   requires c != nil && forall(b int :: 0 <= b && b < len(c.writeToBranches) ==> c.writeToBranches[b] != nil)
+//@   modifies fresh()
+//@   ensures[fresh] result == nil || fresh(result)
+//@   after call 1 append: assert[data_then_control_successors] @C02 len(result) == len(c.writeTo) + len(c.controls) && forall(i int :: 0 <= i && i < len(c.writeTo) ==> result[i] == c.writeTo[i]) && forall(i int :: 0 <= i && i < len(c.controls) ==> result[len(c.writeTo) + i] == c.controls[i])
+//@   ensures[none_dropped] @C02 len(result) >= len(c.writeTo) + len(c.controls)
+//@   note the list is characterised where it is built (data successors followed by control successors); that the later appends of branch targets keep that prefix is only proved for its length (the content invariant through the two loops times out), and the branch targets themselves are not characterised
+//@   loop 1:
+//@     modifies fresh()
+//@     invariant[fresh] (ret == nil || fresh(ret)) && len(ret) >= len(c.writeTo) + len(c.controls)
+//@   loop 2:
+//@     modifies fresh()
+//@     invariant[fresh] (ret == nil || fresh(ret)) && len(ret) >= len(c.writeTo) + len(c.controls)
